@@ -46,7 +46,7 @@ class Lock:
 
 # table name of `extract` -> the generated Lean modules under Zrnt/Gen it writes
 GEN_TABLE_MODULES = {"configs": ["Configs"], "faultsites": ["FaultSites"], "lockfacts": ["LockFacts", "LockFactsOk"],
-                     "sszfacts": ["SszFacts"], "statefacts": ["StateFacts"]}
+                     "sszfacts": ["SszFacts"], "sszcodec": ["SszCodec"], "sszroot": ["SszRoot"], "ssztags": ["SszTags"], "statefacts": ["StateFacts"]}
 
 
 def regen_items_in_cone(cone_files):
@@ -169,9 +169,10 @@ def failed_decls(build_output):
 def audit(theorems, module, log):
     """#print axioms for every property theorem. Returns dict name -> list of axioms (None = missing)."""
     os.makedirs(os.path.join(BUILD, "audit"), exist_ok=True)
-    path = os.path.join(BUILD, "audit", module.replace(".", "_") + ".lean")
+    path = os.path.join(BUILD, "audit", (module if isinstance(module, str) else module[0]).replace(".", "_") + ".lean")
     with open(path, "w") as f:
-        f.write(f"import {module}\n")
+        for m in ([module] if isinstance(module, str) else module):
+            f.write(f"import {m}\n")
         for t in theorems:
             f.write(f"#print axioms {t}\n")
     rc, out = sh(["lake", "env", "lean", path], cwd=LEAN, timeout=1800)
